@@ -676,7 +676,8 @@ def expand_macros(text, macros, hits, depth=0, context=None):
                 if md.may_return:
                     new = ('match %s { core::result::Result::Ok(_) => {}, core::result::Result::Err(e__) => { return PrinterLogMessageResult::Err(e__); } }' % call)
                 else:
-                    new = call + ';'
+                    # expression position (e.g. a match arm `=> m!(..),`): the call itself, no statement terminator
+                    new = call + (';' if (stmt_pos or e > c + 1) else '')
                 text = _sub(text, s, e, new)
                 _count(hits, 'R13.macro_as_fn_call.' + name)
                 break
